@@ -411,8 +411,8 @@ func fixedHistories() []histCase {
 
 // checkFloors: minimum coverage of a generated (non-replay) run.
 func checkFloors() []string {
-	if run.Replay != "" {
-		return nil
+	if run.Replay != "" || wedged > 0 {
+		return nil // a wedged run has reported oracle failures and stopped early
 	}
 	var bad []string
 	need := func(key string, min int) {
